@@ -601,6 +601,17 @@ def split_call(call):
     raise Unsupported('call syntax ' + call[:80])
 
 
+def split_assign(st):
+    """split `place = rhs` at the first top-level ' = ' (type annotations inside a place may contain ' = ')"""
+    m = mask_lits(st); d = 0
+    for i, ch in enumerate(m):
+        if ch in '([{': d += 1
+        elif ch in ')]}': d -= 1
+        elif d == 0 and m.startswith(' = ', i):
+            return st[:i], st[i + 3:]
+    return None
+
+
 def compile_stmt(fn, st):
     if st.startswith('goto -> '):
         return ('goto', st[8:])
@@ -623,17 +634,20 @@ def compile_stmt(fn, st):
     m = re.match(r'^assert\((!?)(.*?), "(.*?)"(.*)\) -> \[success: (bb\d+), unwind.*\]$', st, re.S)
     if m:
         return ('assert', bool(m.group(1)), parse_operand(fn, m.group(2)), m.group(3), m.group(5))
-    m = re.match(r'^(.+?) = (.*) -> \[return: (bb\d+), unwind.*\]$', st, re.S) or re.match(r'^(.+?) = (.*) -> (bb\d+)$', st, re.S)
-    if m and '(' in m.group(2):
-        dest, call, nb = m.group(1), m.group(2), m.group(3)
-        callee, argstr = split_call(call)
-        args = [parse_operand(fn, x) for x in split_top(argstr)] if argstr.strip() else []
-        return ('call', parse_place(dest), callee, args, nb)
-    m = re.match(r'^(.+?) = (.*) -> unwind.*$', st, re.S)
-    if m and '(' in m.group(2):
-        callee, argstr = split_call(m.group(2))
-        args = [parse_operand(fn, x) for x in split_top(argstr)] if argstr.strip() else []
-        return ('call', parse_place(m.group(1)), callee, args, None)
+    sa = split_assign(st)
+    if sa is not None:
+        lhs, rhs = sa
+        m = re.match(r'^(.*) -> \[return: (bb\d+), unwind.*\]$', rhs, re.S) or re.match(r'^(.*) -> (bb\d+)$', rhs, re.S)
+        if m and '(' in m.group(1) and not lhs.startswith('discriminant('):
+            call, nb = m.group(1), m.group(2)
+            callee, argstr = split_call(call)
+            args = [parse_operand(fn, x) for x in split_top(argstr)] if argstr.strip() else []
+            return ('call', parse_place(lhs), callee, args, nb)
+        m = re.match(r'^(.*) -> unwind.*$', rhs, re.S)
+        if m and '(' in m.group(1):
+            callee, argstr = split_call(m.group(1))
+            args = [parse_operand(fn, x) for x in split_top(argstr)] if argstr.strip() else []
+            return ('call', parse_place(lhs), callee, args, None)
     m = re.match(r'^yield\((.*)\) -> \[resume: (bb\d+), drop: (bb\d+)\]$', st, re.S)
     if m:
         return ('yield', parse_operand(fn, m.group(1)), m.group(2))
@@ -643,9 +657,8 @@ def compile_stmt(fn, st):
     m = re.match(r'^discriminant\((.*)\) = (\d+)$', st, re.S)
     if m:
         return ('setdiscr', parse_place(m.group(1)), int(m.group(2)))
-    m = re.match(r'^(.+?) = (.*)$', st, re.S)
-    if m:
-        return ('assign', parse_place(m.group(1)), parse_rvalue(fn, m.group(2)))
+    if sa is not None:
+        return ('assign', parse_place(sa[0]), parse_rvalue(fn, sa[1]))
     raise Unsupported('statement ' + st[:100])
 
 
